@@ -40,11 +40,37 @@ Definition cause_eqb (a b : stopcause) : bool :=
 Definition ocause_eqb (a b : option stopcause) : bool :=
   match a, b with None, None => true | Some x, Some y => cause_eqb x y | _, _ => false end.
 
+(* Which observables a check compares (the projection relevant to its property);
+   everything else is ignored on both sides. *)
+Record mask := {
+  mk_start : bool;   (* handler entries and gate events *)
+  mk_ctx : bool;     (* the cancellation state a handler sees at entry / at its gate *)
+  mk_send : bool;    (* response messages *)
+  mk_sendreq : bool; (* pushed requests *)
+  mk_close : bool;
+  mk_ret : bool;     (* API returns (Stop, CancelRequest, Notify, Callback) *)
+  mk_wait : bool;    (* WaitStatus returns *)
+  mk_parked : bool;  (* parked goroutines per scheduling point (liveness / quiescence) *)
+  mk_used : bool; mk_calls : bool; mk_queue : bool; mk_running : bool  (* snapshot parts *)
+}.
+Definition mask_all : mask := Build_mask true true true true true true true true true true true true.
+
+Definition obs_keep (k : mask) (o : obs) : bool :=
+  match o with
+  | OStart _ _ | OGate _ _ => mk_start k
+  | OSend _ _ _ => mk_send k
+  | OSendReq _ _ _ _ => mk_sendreq k
+  | OClose => mk_close k
+  | ORet _ _ => mk_ret k
+  | OWaitRet _ => mk_wait k
+  | OCrash _ => true
+  end.
+
 (* model observation vs observed observation *)
-Definition obs_match (m o : obs) : bool :=
+Definition obs_match (k : mask) (m o : obs) : bool :=
   match m, o with
-  | OStart p c, OStart p' c' => beq p p' && eqb c c'
-  | OGate p c, OGate p' c' => beq p p' && eqb c c'
+  | OStart p c, OStart p' c' => beq p p' && (negb (mk_ctx k) || eqb c c')
+  | OGate p c, OGate p' c' => beq p p' && (negb (mk_ctx k) || eqb c c')
   | OSend ok b rs, OSend ok' b' rs' => eqb ok ok' && eqb b b' && list_match rsp_match rs rs'
   | OSendReq ok i m p, OSendReq ok' i' m' p' => eqb ok ok' && beq i i' && beq m m' && beq p p'
   | OClose, OClose => true
@@ -54,17 +80,19 @@ Definition obs_match (m o : obs) : bool :=
   end.
 
 (* multiset matching: each model observation is matched with a distinct observed one *)
-Fixpoint remove_match (m : obs) (os : list obs) : option (list obs) :=
+Fixpoint remove_match (k : mask) (m : obs) (os : list obs) : option (list obs) :=
   match os with
   | [] => None
-  | o :: r => if obs_match m o then Some r
-              else match remove_match m r with Some r' => Some (o :: r') | None => None end
+  | o :: r => if obs_match k m o then Some r
+              else match remove_match k m r with Some r' => Some (o :: r') | None => None end
   end.
-Fixpoint obs_perm (ms os : list obs) : bool :=
+Fixpoint obs_perm_all (k : mask) (ms os : list obs) : bool :=
   match ms with
   | [] => match os with [] => true | _ => false end
-  | m :: r => match remove_match m os with Some os' => obs_perm r os' | None => false end
+  | m :: r => match remove_match k m os with Some os' => obs_perm_all k r os' | None => false end
   end.
+Definition obs_perm (k : mask) (ms os : list obs) : bool :=
+  obs_perm_all k (filter (obs_keep k) ms) (filter (obs_keep k) os).
 
 Record snapshot := { sn_used : list bytes; sn_calls : list bytes; sn_qlen : nat; sn_running : bool }.
 
@@ -72,9 +100,11 @@ Fixpoint all_in (a b : list bytes) : bool :=
   match a with [] => true | x :: r => mem_bytes x b && all_in r b end.
 Definition set_eqb (a b : list bytes) : bool := (length a =? length b) && all_in a b && all_in b a.
 
-Definition snap_ok (s : state) (sn : snapshot) : bool :=
-  set_eqb (map fst (used s)) (sn_used sn) && set_eqb (map fst (calls s)) (sn_calls sn)
-  && (length (inq s) =? sn_qlen sn) && eqb (running s) (sn_running sn).
+Definition snap_ok (k : mask) (s : state) (sn : snapshot) : bool :=
+  (negb (mk_used k) || set_eqb (map fst (used s)) (sn_used sn))
+  && (negb (mk_calls k) || set_eqb (map fst (calls s)) (sn_calls sn))
+  && (negb (mk_queue k) || (length (inq s) =? sn_qlen sn))
+  && (negb (mk_running k) || eqb (running s) (sn_running sn)).
 
 Inductive item :=
 | IEnv (l : label) (os : list obs)
@@ -90,18 +120,18 @@ Definition cnt_of (x : site) (cnt : list (site * nat)) : nat :=
 Definition parked_ok (s : state) (cnt : list (site * nat)) : bool :=
   forallb (fun x => parked_count s x =? cnt_of x cnt) all_sites.
 
-Definition try_label (s : state) (os : list obs) (l : label) : list state :=
+Definition try_label (k : mask) (s : state) (os : list obs) (l : label) : list state :=
   match step s l with
-  | Some (s', os') => if obs_perm os' os then [s'] else []
+  | Some (s', os') => if obs_perm k os' os then [s'] else []
   | None => []
   end.
 
-Definition step_item (s : state) (it : item) : list state :=
+Definition step_item (k : mask) (s : state) (it : item) : list state :=
   match it with
-  | IEnv l os => try_label s os l
-  | IRel x os => flat_map (try_label s os) (candidates s x)
-  | IParked cnt => if parked_ok s cnt then [s] else []
-  | ISnap sn => if snap_ok s sn then [s] else []
+  | IEnv l os => try_label k s os l
+  | IRel x os => flat_map (try_label k s os) (candidates s x)
+  | IParked cnt => if negb (mk_parked k) || parked_ok s cnt then [s] else []
+  | ISnap sn => if snap_ok k s sn then [s] else []
   end.
 
 (* a fingerprint of the mutable part of a state, used to merge equal alternatives *)
@@ -146,13 +176,13 @@ Definition expected_of (s : state) (it : item) : list (list obs) :=
   | _ => []
   end.
 
-Fixpoint accept (ss : list state) (log : list item) (i : nat) : verdict :=
+Fixpoint accept (k : mask) (ss : list state) (log : list item) (i : nat) : verdict :=
   match log with
   | [] => Accepted (length ss) ss
   | it :: rest =>
-      match dedup (flat_map (fun s => step_item s it) ss) [] with
+      match dedup (flat_map (fun s => step_item k s it) ss) [] with
       | [] => Rejected i (flat_map (fun s => expected_of s it) ss)
-      | ss' => accept ss' rest (S i)
+      | ss' => accept k ss' rest (S i)
       end
   end.
 
